@@ -115,3 +115,28 @@ package prelude
 //@ func Unmarshal
 //@   trusted
 //@   modifies nothing
+
+//@ package strings
+
+// strings.Builder: its accumulated text is the specification-only field `content`.
+//@ ghost (strings.Builder) content string
+
+//@ func (*Builder).WriteString
+//@   trusted
+//@   modifies gf(b, content, string)
+//@   ensures gf(b, content, string) == old(gf(b, content, string)) + s && result1 == nil
+
+//@ func (*Builder).WriteRune
+//@   trusted
+//@   modifies gf(b, content, string)
+//@   ensures 0 <= r && r < 128 ==> gf(b, content, string) == old(gf(b, content, string)) + chr(int(r))
+//@   ensures result1 == nil
+
+//@ func (*Builder).Grow
+//@   trusted
+//@   modifies nothing
+
+//@ func (*Builder).String
+//@   trusted
+//@   modifies nothing
+//@   ensures result == gf(b, content, string)
